@@ -298,7 +298,11 @@ CHECKS["C01"] = dict(
          "find_nearest_neighbors, ...) and the inline index functions of "
          "nnps_base.pxd are lowered to Python and executed on exact-real "
          "positions and smoothing lengths of n<=3 particles in 1-2 arrays "
-         "(dim 1, 2; also after a move + update()); on every path z3 decides "
+         "(dim 1, 2; also after a move + update(); with the lowered "
+         "NeighborCache and sort_gids; and the lowered SpatialHashNNPS "
+         "(dims 1-3) and ExtendedSpatialHashNNPS (dims 1-2) over a model of "
+         "their C++ hash table); on every path z3 "
+         "decides "
          "that each returned neighbour list has valid, distinct indices and "
          "equals the brute-force set {j: d^2 < (rs max(hi,hj))^2} (pairs "
          "exactly on the cut-off excepted); out-of-bounds array accesses of "
@@ -306,8 +310,8 @@ CHECKS["C01"] = dict(
          "inline functions (stencil sufficiency, flatten injective, "
          "get_valid_cell_index) and a source check that all 8 CPU "
          "*_nnps.pyx use the symmetric acceptance test.",
-    note="only the default algorithm is executed end to end; the other 11 "
-         "are covered by the lemmas/acceptance check only; cache off, "
+    note="LinkedListNNPS, SpatialHashNNPS and ExtendedSpatialHashNNPS are "
+         "executed end to end; the other 9 are covered by the lemmas/acceptance check only; "
          "sequential, exact reals, max(h)=0.5 in most units (cell size 1), "
          "paths capped by a deadline (incomplete units are listed); "
          "Cython->Python lowering and array models trusted",
